@@ -15,11 +15,11 @@
                                 everything — and `packet_roundtrip` for packet types.
   FULL STATEMENT: `all_shipped_roundtrip` — for each of the 55 shipped types (the list is regenerated from
   the source on every run, its well-formedness is re-decided by the kernel) and every canonical value.
-  The canonical domain is `StructDef.canon` (DESIGN.md §5.1 as a recursive definition over the schema).
-  One restriction relative to §5.1, stated in the definition `Ty.canon`: an ABSENT positional optional is not
-  in the proved domain (whether it is canonical depends on the bytes that follow it — §5.1); such values are
-  covered by the correspondence check on every run (`roundtrip_absent_positional_partial` below shows the
-  phenomenon on the model).
+  The canonical domain is `StructDef.canon` (DESIGN.md §5.1 as a recursive definition over the schema),
+  including §5.1's clause for ABSENT POSITIONAL optionals: such a value is canonical exactly when the field's
+  own decoder reads the bytes that follow it in this encoding as "absent" (`fieldsCanon`);
+  `registration_absent_currency_canon` is a canonical instance, `statusEnquiry_absent_password_not_canonical`
+  a non-canonical one (the wire format has no marker for the missing field).
 -/
 import ZvtVerif.Proofs.Canon
 import ZvtVerif.Generated
@@ -168,7 +168,9 @@ theorem registration_example_canon : Generated.packets_Registration.canon
     (.struct [.num 123456, .num 0xde, .some (.num 978), .some (.struct [.some (.num 1024)])]) := by
   refine ⟨_, rfl, ?_, ?_⟩
   · simp only [Generated.packets_Registration, Generated.packets_tlv_Registration, fieldsCanon, Ty.canon]
-    refine ⟨?_, ?_, ?_, ⟨⟨?_, trivial⟩, ?_⟩, trivial⟩
+    have noabs : ∀ {P : Prop} {n : Nat}, (Val.num n = Val.none → P) := by intro P n h; cases h
+    have noabs' : ∀ {P : Prop} {v : Val}, (Val.some v = Val.none → P) := by intro P v h; cases h
+    refine ⟨?_, ⟨?_, ⟨?_, ⟨⟨⟨?_, trivial, fun h => by cases h⟩, ?_⟩, trivial, fun h => by cases h⟩, fun _ => noabs'⟩, fun _ => noabs⟩, fun _ => noabs⟩
     · exact ⟨_, rfl, by show (bcdEncK 123456).length ≤ 3; decide +kernel, by decide⟩
     · exact ⟨_, rfl, trivial, by decide⟩
     · exact ⟨_, rfl, by show (bcdEncK 978).length ≤ 2; decide +kernel, by decide⟩
@@ -195,14 +197,51 @@ example : ∃ bytes, encodeCmd Generated.packets_Registration
   obtain ⟨bytes, h1, _, h3⟩ := all_shipped_roundtrip Generated.packets_Registration registration_shipped _ registration_example_canon
   exact ⟨bytes, h1, h3 rfl⟩
 
-/-- why an absent positional optional is outside the proved domain: `StatusEnquiry {password: None,
-service_byte: Some(5), tlv: Some(..)}` is written without any marker for the missing password and read back
-with the password 030506 (and no service byte). -/
-theorem roundtrip_absent_positional_partial :
+/-- an ABSENT positional optional that is canonical: a registration without currency (and without TLV
+container) — nothing follows the missing field, so its decoder finds nothing to read … -/
+theorem registration_absent_currency_canon : Generated.packets_Registration.canon
+    (.struct [.num 123456, .num 0xde, .none, .none]) := by
+  refine ⟨_, rfl, ?_, ?_⟩
+  · simp only [Generated.packets_Registration, Generated.packets_tlv_Registration, fieldsCanon, Ty.canon]
+    have noabs : ∀ {P : Prop} {n : Nat}, (Val.num n = Val.none → P) := by intro P n h; cases h
+    refine ⟨?_, ⟨?_, ⟨trivial, ⟨trivial, trivial, fun h => by cases h⟩, ?_⟩, fun _ => noabs⟩, fun _ => noabs⟩
+    · exact ⟨_, rfl, by show (bcdEncK 123456).length ≤ 3; decide +kernel, by decide⟩
+    · exact ⟨_, rfl, trivial, by decide⟩
+    · intro _ _ p hp
+      have : encFields [Field.mk "tlv" (some 0x6) .tlv .dflt (.opt (.struct [Field.mk "max_len_adpu" (some 0x1a) .tlv .bigEndian (.opt (.int 2))]))]
+          [.none] = .ok [] := by decide +kernel
+      rw [this] at hp
+      have hp' : p = [] := (Except.ok.inj hp).symm
+      subst hp'
+      rfl
+  · intro p hp
+    have : encFields Generated.packets_Registration.fields [.num 123456, .num 0xde, .none, .none] =
+        .ok [0x12, 0x34, 0x56, 0xde] := by decide +kernel
+    rw [this] at hp; cases hp; decide
+
+/-- … and the theorem applies: `06 00 04 12 34 56 DE` is read back without a currency, whatever follows the packet. -/
+example : ∃ bytes, encodeCmd Generated.packets_Registration (.struct [.num 123456, .num 0xde, .none, .none]) = .ok bytes ∧
+    ∀ x, decodeCmd Generated.packets_Registration (bytes ++ x) = .ok (.struct [.num 123456, .num 0xde, .none, .none], x) := by
+  obtain ⟨bytes, h1, _, h3⟩ := all_shipped_roundtrip Generated.packets_Registration registration_shipped _ registration_absent_currency_canon
+  exact ⟨bytes, h1, h3 rfl⟩
+
+/-- an absent positional optional that is NOT canonical: `StatusEnquiry {password: None, service_byte: Some(5),
+tlv: Some(..)}` is written without any marker for the missing password and read back with the password 030506
+(and no service byte) — the wire format cannot carry this value, and `StructDef.canon` excludes it. -/
+theorem statusEnquiry_absent_password_not_canonical :
     encodeCmd Generated.packets_StatusEnquiry (.struct [.none, .some (.num 5), .some (.struct [.some (.num 7)])]) =
       .ok [0x05, 0x01, 0x08, 0x03, 0x05, 0x06, 0x04, 0x1f, 0xf2, 0x01, 0x07] ∧
     (decodeCmd Generated.packets_StatusEnquiry [0x05, 0x01, 0x08, 0x03, 0x05, 0x06, 0x04, 0x1f, 0xf2, 0x01, 0x07]).isOkVal
-      (.struct [.some (.num 30506), .none, .none]) [0x04, 0x1f, 0xf2, 0x01, 0x07] = true := by
-  constructor <;> decide +kernel
+      (.struct [.some (.num 30506), .none, .none]) [0x04, 0x1f, 0xf2, 0x01, 0x07] = true ∧
+    ¬ Generated.packets_StatusEnquiry.canon (.struct [.none, .some (.num 5), .some (.struct [.some (.num 7)])]) := by
+  refine ⟨by decide +kernel, by decide +kernel, ?_⟩
+  rintro ⟨vs, hv, hfc, _⟩
+  cases hv
+  simp only [Generated.packets_StatusEnquiry, Generated.packets_tlv_StatusEnquiry, fieldsCanon] at hfc
+  have habs := hfc.2.2 (by trivial) (by trivial) [0x03, 0x05, 0x06, 0x04, 0x1f, 0xf2, 0x01, 0x07] (by decide +kernel)
+  have hreal : (Ty.de (.opt (.int 8)) (.fixed 3) .bcd none [0x03, 0x05, 0x06, 0x04, 0x1f, 0xf2, 0x01, 0x07]).isOkVal
+      (.some (.num 30506)) [0x04, 0x1f, 0xf2, 0x01, 0x07] = true := by decide +kernel
+  rw [habs] at hreal
+  simp [Res.isOkVal, Val.beq] at hreal
 
 end Zvt.C01
